@@ -26,7 +26,7 @@ RULE_FN = ('function level: bounded-exhaustive product patch shape {body, status
            'fault plan {none; request i in 0..3 answered 404/422/409/200-with-empty-body} x foreign write {none; before request '
            '0..3: annotation edit / finalizer added / finalizer removed / delete / delete-and-recreate} on objects carrying foreign '
            'finalizers around kopf\'s own x fns {block, allow, idempotent list edit, status edit, block+status, '
-           'list+status, raising}; non-trivial iff >= 2 requests were sent or a fault/foreign write took effect; distinct by '
+           'list+status, raising, move spec->status, move status->spec}; non-trivial iff >= 2 requests were sent or a fault/foreign write took effect; distinct by '
            '(shape, subresource, observed request kinds, statuses, outcome)')
 
 HEADER = fw.STD_HEADER + 'From KV Require Import Base.Dicts Model.JsonPatch Model.Causes Model.PatchObj.\n'
@@ -61,6 +61,19 @@ def _fn_append(body: dict) -> None:          # NOT idempotent: only in the diffe
     body.setdefault('spec', {}).setdefault('items', []).append('z')
 
 
+def _mk_move(src: str, dst: str, key: str) -> Callable[[dict], None]:
+    def move(body: dict) -> None:
+        s = body.get(src)
+        if isinstance(s, dict) and key in s:
+            body.setdefault(dst, {})[key] = s.pop(key)
+    move.__name__ = f'move_{src}_{key}_to_{dst}'
+    return move
+
+
+_fn_move_to_status = _mk_move('spec', 'status', 'token')       # a value moved from the spec into the status ...
+_fn_move_to_spec = _mk_move('status', 'spec', 'tok2')          # ... and the other way round: the ops cross the /status split
+
+
 def _fn_raise(body: dict) -> None:
     raise TypeError('a transformation that fails')
 
@@ -71,13 +84,15 @@ def make_fn(kind: str) -> Callable[[dict], None]:
         return functools.partial(finalizers.block_deletion, finalizer=FIN)
     if kind == 'allow':
         return functools.partial(finalizers.allow_deletion, finalizer=FIN)
-    return {'listedit': _fn_listedit, 'statusedit': _fn_statusedit, 'append': _fn_append, 'raise': _fn_raise}[kind]
+    return {'listedit': _fn_listedit, 'statusedit': _fn_statusedit, 'append': _fn_append, 'raise': _fn_raise,
+            'move_to_status': _fn_move_to_status, 'move_to_spec': _fn_move_to_spec}[kind]
 
 
 def fn_term(kind: str, tag: int) -> str:
     f = {'block': f'(block_deletion {cq.cstr(FIN)})', 'allow': f'(allow_deletion {cq.cstr(FIN)})',
          'listedit': '(po_fn_add2 "spec" "items" (JStr "x"))', 'statusedit': '(po_fn_set2 "status" "y" (JNum 2%Z))',
-         'append': '(po_fn_append2 "spec" "items" (JStr "z"))', 'raise': 'po_fn_raise'}[kind]
+         'append': '(po_fn_append2 "spec" "items" (JStr "z"))', 'raise': 'po_fn_raise',
+         'move_to_status': '(po_fn_move "spec" "status" "token")', 'move_to_spec': '(po_fn_move "status" "spec" "tok2")'}[kind]
     return f'(mkFn {cq.cnat(tag)} {f})'
 
 
@@ -99,7 +114,9 @@ def effect_count_ok(kind: str, obj: dict | None) -> bool | None:
 FN_VARIANTS: dict[str, list[str]] = {
     'block': ['block'], 'allow': ['allow'], 'listedit': ['listedit'], 'statusedit': ['statusedit'],
     'block+status': ['block', 'statusedit'], 'list+status': ['listedit', 'statusedit'], 'raise': ['statusedit', 'raise'],
+    'move-to-status': ['move_to_status'], 'move-to-spec': ['move_to_spec'],
 }
+MOVE_KINDS = {'move_to_status': ('spec', 'token'), 'move_to_spec': ('status', 'tok2')}      # kind -> where the value comes from
 
 SHAPES: dict[str, tuple[dict, bool]] = {   # merge-patch content, has fns
     'body': ({'metadata': {'annotations': {'k': 'v', 'keep': None}}, 'spec': {'b': 2}}, False),
@@ -122,9 +139,9 @@ def initial_object(fns: list[str], deleting: bool = False, touched: bool = False
         fins = [FIN] if 'allow' in fns else []
     if deleting:
         fins = [FIN]
-    o: dict[str, Any] = {'spec': {'a': 1, 'items': ['i0']},
+    o: dict[str, Any] = {'spec': {'a': 1, 'items': ['i0'], 'token': 't-1'},
                          'metadata': {'finalizers': fins, 'annotations': {'keep': 'me'}, 'labels': {'app': 'demo'}},
-                         'status': {'old': 0}}
+                         'status': {'old': 0, 'tok2': 't-2'}}
     if touched:
         o['metadata']['annotations'][TOUCH_KEY] = '2029-12-31T00:00:00+00:00'
     return o
@@ -599,7 +616,14 @@ def monitor_patch_obj(ctx: fw.Ctx, o: dict) -> None:
                         exp = canon.apply6902(x.before, rest)
                     except Exception as e:   # noqa: BLE001
                         exp = f'unappliable: {e!r}'
-                    if norm(exp) != norm(x.after) and norm(x.after) is not None:
+                    got_after = x.after
+                    if sub and isinstance(exp, dict) and isinstance(got_after, dict):
+                        # with the subresource the addressed URL persists its side of the result only
+                        if x.kind == 'main':
+                            exp, got_after = ({k: v for k, v in exp.items() if k != 'status'}, {k: v for k, v in got_after.items() if k != 'status'})
+                        else:
+                            exp, got_after = {'status': exp.get('status')}, {'status': got_after.get('status')}
+                    if norm(exp) != norm(got_after) and norm(x.after) is not None:
                         ctx.fail('the server object after a JSON-patch batch is not the batch applied to the version it was computed from',
                                  case, {'after': x.after, 'expected': exp}, sig='json-batch-effect')
                 # the ops are valid for the version they test: the batch, applied to the server object it was accepted on,
@@ -671,6 +695,24 @@ def monitor_patch_obj(ctx: fw.Ctx, o: dict) -> None:
                      case, {'server': norm(final), 'expected': norm(exp), 'patch': content, 'sent': merged_sent}, sig='incomplete')
         ctx.count('fn_monitor', 'complete-checked')
 
+    # ---- the whole effect of the transformations, on BOTH sides of the /status split: every request accepted, nothing carried ->
+    #      the server object is the transformations applied to the server object the (first) JSON batch was accepted on
+    jsons = [x for x in log if x.ctype == CT_JSON]
+    if ok and clean and remaining is None and jsons and not raising and jsons[0].before is not None and not desc.get('deleting'):
+        want = copy.deepcopy(jsons[0].before)
+        try:
+            for f in o['fns']:
+                f(want)
+        except (TypeError, AttributeError, KeyError, ValueError):
+            want = None
+        got = jsons[-1].after
+        if want is not None and got is not None and norm(got) != norm(want):
+            ctx.fail('every request was accepted and nothing is carried forward, but the server object is not the transformations applied '
+                     'to the object their JSON-patch was accepted on: a part of their effect was lost', case,
+                     {'server': norm(got), 'expected': norm(want), 'accepted_on': jsons[0].before,
+                      'batches': [[x.kind, x.payload[1:]] for x in jsons]}, sig='fn-effect-incomplete')
+        ctx.count('fn_monitor', 'fn-effect-checked')
+
     # ---- neither lost nor duplicated: the (idempotent) transformations take effect exactly once, now or in the next cycle
     idem = fn_kinds and all(k in ('block', 'allow', 'listedit', 'statusedit') for k in fn_kinds)
     foreign_kind = desc['slip'][1] if desc.get('slip') else None
@@ -709,6 +751,30 @@ def next_cycle(o: dict, remaining: Any) -> dict | None:
     if remaining is not None:
         return {'metadata': {}, 'never-converged': True}
     return api.get(kind, NS, NAME)
+
+
+def match_f802(f: dict) -> bool:
+    """F802: a transformation moved a value between the status and the rest of the object; with a status subresource the one `move`
+    op is routed by its destination path only, so the removal at the source is not persisted.  Narrow: subresource, a moving fn,
+    every request 200, and the ONLY difference between the server object and the expected one is the surviving source value."""
+    c = f.get('case') or {}
+    obs = f.get('observed') if isinstance(f.get('observed'), dict) else {}
+    kinds = c.get('fn_kinds') or FN_VARIANTS.get(c.get('fns') or '', [])
+    moving = [k for k in kinds if k in MOVE_KINDS]
+    if f['sig'] not in ('fn-effect-incomplete', 'incomplete') or c.get('subresource') is not True or not moving:
+        return False
+    if any(r.get('status') != 200 or r.get('injected') for r in c.get('requests') or []):
+        return False
+    server, expected = copy.deepcopy(obs.get('server')), obs.get('expected')
+    if not isinstance(server, dict) or not isinstance(expected, dict):
+        return False
+    survived = 0
+    for k in moving:
+        side, key = MOVE_KINDS[k]
+        if isinstance(server.get(side), dict) and key in server[side] and key not in (expected.get(side) or {}):
+            del server[side][key]
+            survived += 1
+    return survived > 0 and server == expected
 
 
 # ---------------------------------------------------------------------------------------------
@@ -987,6 +1053,7 @@ def apply_layer(ctx: fw.Ctx, env: 'Env', seen_terms: set[str], tie: str = 'apply
 
 def differential(ctx: fw.Ctx) -> None:
     ctx.matchers = dict(ctx.matchers)
+    ctx.matchers.setdefault('F802', match_f802)
     ctx.notes.append(RULE_FN)
     ok, logtxt = fw.build_models(['Model/PatchObj.v', 'Model/Causes.v'])
     if not ok:
@@ -1048,6 +1115,8 @@ def differential(ctx: fw.Ctx) -> None:
 def replay(ctx: fw.Ctx, body: dict) -> bool:
     """Re-run one function-level case (the `case` of a replay file) through the monitors."""
     ctx.matchers = dict(ctx.matchers)
+    ctx.matchers = dict(ctx.matchers)
+    ctx.matchers.setdefault('F802', match_f802)
     if (body.get('case') or {}).get('fn') == 'carry':
         from kv.props import c08_carry
         return c08_carry.replay(ctx, body)
